@@ -95,3 +95,12 @@ MUTANTS += [
     dict(property='C03', name='grad uses the state symbols', file=DETF, old="            for j, p in enumerate(self._iterParamList()):\n                eqn, isDifficult = simplifyEquation(diff(ode[i], p, 1))", new="            for j, p in enumerate(self._iterStateList()):\n                eqn, isDifficult = simplifyEquation(diff(ode[i], p, 1))"),
     dict(property='C03', name='jacobian simplification writes to the transposed cell', file=DETF, old="                    self._Jacobian[i,j], isDifficult = simplifyEquation(eqn)", new="                    self._Jacobian[j,i], isDifficult = simplifyEquation(eqn)"),
 ]
+MUTANTS += [
+    dict(property='C04', name='adaptive step: mean bound without abs (negative step)', file=S, old="tau_scale_mu=min(bound/abs(mu))", new="tau_scale_mu=min(bound/mu)"),
+    dict(property='C04', name='adaptive step: bound can be zero (epsilon*min rate)', file=S, old="bound = epsilon*np.sum(rates)", new="bound = epsilon*np.min(rates)"),
+    dict(property='C04', name='solve_stochast returns step sizes as times', file=SIMF, old="simXList, simJumpList, simTList, simdTList = list(xmat[0]), list(xmat[1]), list(xmat[2]), list(xmat[3])", new="simXList, simJumpList, simTList, simdTList = list(xmat[0]), list(xmat[1]), list(xmat[3]), list(xmat[2])"),
+    dict(property='C16', name='simulate_param: mean leaves out the first run', file=SIMF, old="Y = np.dstack(solutionList).mean(axis=2)", new="Y = np.dstack(solutionList[1:]).mean(axis=2)"),
+    dict(property='C16', name='solve_stochast serial path seeds each run afresh', file=SIMF, old="            logging.debug(\"Performing serial simulation\")\n            xtmp = [self._jump(finalT, exact=exact, full_output=True) for _i in range(iteration)]", new="            logging.debug(\"Performing serial simulation\")\n            xtmp = [self._jump(finalT, exact=exact, full_output=True, seed=True) for _i in range(iteration)]"),
+    dict(property='C10', name='T transition adds magnitude but removes 1 (vMat)', file=BASEF, old="                    self._vMat[origin_index, event_index] -= magnitude\n                    self._vMat[destination_index, event_index] += magnitude", new="                    self._vMat[origin_index, event_index] -= 1\n                    self._vMat[destination_index, event_index] += magnitude"),
+    dict(property='C10', name='tauLeap applies a drift although there are no explicit terms (uses rates)', file=S, old="new_x = new_x + determ_changes*tau_scale", new="new_x = new_x + determ_changes*tau_scale + 0*new_x + tau_scale"),
+]
